@@ -643,10 +643,9 @@ Proof.
   assert (HQ : (length roots - i) * Q = (length roots - S i) * Q + Q).
   { replace (length roots - i) with (S (length roots - S i)) by lia. lia. }
   assert (Hk2 : k + 2 <= Q) by (unfold Q; lia).
-  rewrite HQ. remember ((length roots - S i) * Q) as X eqn:EX. clear EX HQ.
   destruct (read_loc w r).
-  - unfold scan_start. destruct (nth_error roots (S i)); cbn [wmode]; try rewrite <- EX; lia.
-  - destruct (Nat.ltb_spec k max_retry); lia.
+  - unfold scan_start. destruct (nth_error roots (S i)); rewrite HQ; generalize ((length roots - S i) * Q); intro X; lia.
+  - destruct (Nat.ltb_spec k max_retry); rewrite HQ; generalize ((length roots - S i) * Q); intro X; lia.
 Qed.
 
 Lemma G_scan w : G w -> scan_ok roots w = true -> G (stepT w LScan).
